@@ -156,4 +156,110 @@ theorem flatten_equiv (s t : Sp) (hs : isUnionTree s = true) (ht : isUnionTree t
     bindE (ev ptm s) (gtli ptm) = bindE (ev ptm t) (gtli ptm) := by
   rw [elaborateAnn_flatten s hs ls ds, elaborateAnn_flatten t ht lt dt, h]
 
+/-! ### `_required` written out -/
+
+theorem explicitReq_eq (R : List String) : ∀ rs : List (String × FieldRes),
+    (∀ n, n ∈ requiredOf rs → R.contains n = true) → conflictOpt R rs = false → explicitReq R rs = requiredOf rs
+  | [], _, _ => rfl
+  | (n, .dropped) :: rest, h, hc => by
+    simp only [explicitReq, requiredOf]
+    exact explicitReq_eq R rest (by simpa [requiredOf] using h) (by simpa [conflictOpt] using hc)
+  | (n, .field d b (some v)) :: rest, h, hc => by
+    simp only [explicitReq, requiredOf]
+    exact explicitReq_eq R rest (by simpa [requiredOf] using h) (by simpa [conflictOpt] using hc)
+  | (n, .field d true none) :: rest, h, hc => by
+    simp only [requiredOf] at h ⊢
+    have hn : R.contains n = true := h n (by simp)
+    simp only [explicitReq, hn, if_true]
+    rw [explicitReq_eq R rest (fun m hm => h m (by simp [hm])) (by simpa [conflictOpt] using hc)]
+  | (n, .field d false none) :: rest, h, hc => by
+    simp only [conflictOpt, Bool.or_eq_false_iff] at hc
+    simp only [explicitReq, requiredOf, hc.1]
+    exact explicitReq_eq R rest (by simpa [requiredOf] using h) hc.2
+
+theorem isFieldName_cons (p : String × FieldRes) (rest : List (String × FieldRes)) (n : String) :
+    isFieldName (p :: rest) n = ((p.1 == n && isField p.2) || isFieldName rest n) := by
+  simp [isFieldName, List.any_cons]
+
+theorem requiredOf_names : ∀ (rs : List (String × FieldRes)) (n : String), n ∈ requiredOf rs → isFieldName rs n = true
+  | [], n, h => by simp [requiredOf] at h
+  | (m, .dropped) :: rest, n, h => by
+    simp only [requiredOf] at h
+    rw [isFieldName_cons, requiredOf_names rest n h]; simp
+  | (m, .field d b (some v)) :: rest, n, h => by
+    simp only [requiredOf] at h
+    rw [isFieldName_cons, requiredOf_names rest n h]; simp
+  | (m, .field d false none) :: rest, n, h => by
+    simp only [requiredOf] at h
+    rw [isFieldName_cons, requiredOf_names rest n h]; simp
+  | (m, .field d true none) :: rest, n, h => by
+    simp only [requiredOf, List.mem_cons] at h
+    rw [isFieldName_cons]
+    rcases h with h | h
+    · simp [h, isField]
+    · rw [requiredOf_names rest n h]; simp
+
+/-- Writing `_required` out as exactly the names typedpy would compute changes nothing (unless one of them is also
+    optional, which typedpy refuses: `conflictOpt`). -/
+theorem finishClass_explicit (opt : List String) (rs : List (String × FieldRes))
+    (hc : conflictOpt (requiredOf rs) rs = false) (hd : conflictDropped (requiredOf rs) opt rs = false) :
+    finishClass (some (requiredOf rs)) opt rs = finishClass none opt rs := by
+  have h1 := explicitReq_eq (requiredOf rs) rs (fun n hn => by simpa using hn) hc
+  have h2 : (requiredOf rs).filter (fun n => !isFieldName rs n) = [] := by
+    rw [List.filter_eq_nil_iff]
+    intro n hn
+    simp [requiredOf_names rs n hn]
+  simp [finishClass, hc, hd, h1, h2, classOfReq, classOf]
+
+theorem fieldMeaning_isField (O : Oracles) (a : FieldSp) {r : FieldRes} (h : fieldMeaning O a = .ok r) : isField r = true := by
+  unfold fieldMeaning at h
+  cases hv : a.dflt.value with
+  | none => simp [hv] at h; subst h; rfl
+  | some p =>
+    obtain ⟨v, st⟩ := p
+    simp only [hv] at h
+    cases ht : tryDefault O (denote a.ty) v with
+    | error e => simp [ht] at h
+    | ok u =>
+      simp [ht] at h
+      subst h
+      unfold eqResult
+      split <;> rfl
+
+theorem elabFields_allField (O : Oracles) (sc : Scope) (f : Bool) : ∀ (as : List FieldSp) (rs : List (String × FieldRes)),
+    as.all (fieldSupportedAt O ptm sc f) = true → elabFields O ptm sc f as = .ok rs → rs.all (fun p => isField p.2) = true
+  | [], rs, _, h => by simp [elabFields] at h; subst h; rfl
+  | a :: as, rs, hs, h => by
+    simp only [List.all_cons, Bool.and_eq_true, fieldSupportedAt] at hs
+    simp only [elabFields, elabFieldAt_eq _ O _ _ hs.1.2, elabField_meaning' O f _ hs.1.1] at h
+    cases hm : fieldMeaning O a with
+    | error e => simp [hm] at h
+    | ok r =>
+      simp only [hm, bindE_ok] at h
+      cases hr : elabFields O ptm sc f as with
+      | error e => simp [hr] at h
+      | ok rs' =>
+        simp only [hr, bindE_ok] at h
+        injection h with h
+        subst h
+        simp only [List.all_cons, Bool.and_eq_true]
+        exact ⟨fieldMeaning_isField O a hm, elabFields_allField O sc f as rs' (by simpa [fieldSupportedAt] using hs.2) hr⟩
+
+theorem conflictDropped_allField (R opt : List String) : ∀ rs : List (String × FieldRes),
+    rs.all (fun p => isField p.2) = true → conflictDropped R opt rs = false
+  | [], _ => rfl
+  | p :: rs, h => by
+    simp only [List.all_cons, Bool.and_eq_true] at h
+    have ih := conflictDropped_allField R opt rs h.2
+    unfold conflictDropped at ih ⊢
+    rw [List.any_cons, ih, h.1]
+    rfl
+
+/-- with every declaration declaring a field, the `_optional` list only matters through the fields' own results -/
+theorem finishClass_opt_irrelevant (req : Option (List String)) (o₁ o₂ : List String) (rs : List (String × FieldRes))
+    (h : rs.all (fun p => isField p.2) = true) : finishClass req o₁ rs = finishClass req o₂ rs := by
+  cases req with
+  | none => rfl
+  | some R => simp [finishClass, conflictDropped_allField R _ rs h]
+
 end Typedpy.Elab
